@@ -104,7 +104,11 @@ def _expr(draw, depth, bound):
             return draw(st.sampled_from([f"({first}, {cond})", f"({cond}, {first})", cond, f"[{first}, {cond}]"]))
         if k == 5:  # ifexp with constants (exact predictions)
             a, b = draw(st.sampled_from([("1", "2"), ("1.5", "2"), ("'a'", "'b'"), ("'a'", "1"), ("True", "False"), ("1", "'x'"), ("b'a'", "b'b'"),
-                                            ("('a' + 'b')", "'c'"), ("'c'", "('a' + 'b')"), ("(1 + 2)", "3"), ("(1 + 2)", "1.5"), ("(True + True)", "2")]))
+                                            ("('a' + 'b')", "'c'"), ("'c'", "('a' + 'b')"), ("(1 + 2)", "3"), ("(1 + 2)", "1.5"), ("(True + True)", "2"),
+                                            # a conditional as a branch of a conditional: its type is that of its (agreeing) branches
+                                            ("('a' if § else 'b')", "'c'"), ("'c'", "('a' if § else 'b')"), ("((§ > 1) if § else (§ < 2))", "(§ == 0)"),
+                                            ("{'k': ('a' if § else 'b')}['k']", "'c'"), ("(('a' if § else 'b'), 1)[0]", "'c'"), ("(1 if § else 2)", "2.5")]))
+            a, b = a.replace("§", bound[-1]), b.replace("§", bound[-1])
             return f"({a} if {draw(_expr(d, bound))} else {b})"
     return draw(_UntypedAdapter(depth, bound))
 
